@@ -17,8 +17,10 @@ at modes > 0, and edited between placements.  The pseudo-op ["read", "*"] marks 
 U / U_full / n_modes of EVERY live object are read and compared with the model's state at that point
 (the driver reports the state after every call); there is always a read at the end.  Three read
 policies: after every call, sparse, end only — a reported matrix must not depend on when, or how
-often, it was asked for before.  Streams: (1) a directed corpus (reads around every mutating method;
-tiled building blocks), (2) random programs.
+often, it was asked for before.  A building block may carry a herald (grouping is then forced and
+`c` gains an ancilla mode that every later call has to be mapped over).  Streams: (1) a directed
+corpus (read - mutate - read around every mutating method, also on a circuit that already has an
+ancilla mode; tiled building blocks of depth 1 and 2), (2) random programs.
 """
 
 from __future__ import annotations
@@ -404,7 +406,8 @@ def _one(ctx: Ctx, prog: list, sample: bool) -> None:
 
 def run(ctx: Ctx) -> None:
     ctx.rule = ("(1) directed corpus: read-mutate-read for every mutating method (bs, ps, loss, mode_swaps, barrier, "
-                "add of a unitary / of a building block, herald, edit of a block after placement) and tiled building "
+                "add of a unitary / of a building block, herald, edit of a block after placement; loss-bearing calls, "
+                "swaps and unitary blocks on a circuit that already has an ancilla mode) and tiled building "
                 "blocks holding grouped unitary blocks (depth 1 and 2); (2) random construction programs on one "
                 "circuit (1-8 modes, 0-40 calls, all component kinds, both conventions, unitary blocks via "
                 "add(Unitary), building blocks placed repeatedly, ~15% invalid calls) with U/U_full of every live "
